@@ -162,7 +162,7 @@ def sampling(ctx):
     flds = [n.target.id for n in ci.node.body if isinstance(n, _ast.AnnAssign) and isinstance(n.target, _ast.Name)]
     ctx.check(flds == ["ready", "runnable", "run"], "C35.sample-dataclass", ci.site, "TransactionSamples.fields", found=str(flds), required="positional construction (ready, runnable, run) matches the field order")
     apps = [(ex, e) for ex in fn.exs for e in ex.of(Effect) if pmatch("Q_p.cycles.append(Q_c)", e.call)]
-    ok = bool(apps) and any(pmatch("CycleProfile.make(Q_s, Q_d)", ex.vardef(pmatch("Q_p.cycles.append(Q_c)", e.call)["c"]) or ("c", None)) is not None for ex, e in apps)
+    ok = bool(apps) and any(pmatch("CycleProfile.make(Q_s, Q_d)", ex.vardef(pmatch("Q_p.cycles.append(Q_c)", e.call)["c"]) or pmatch("Q_p.cycles.append(Q_c)", e.call)["c"]) is not None for ex, e in apps)
     ctx.check(ok, "C35.cycle-recorded", fn.site, "profiler_process.append", found=f"{len(apps)} append(s)", required="one CycleProfile.make(samples, profile_data) is appended per sampled cycle")
 
 
